@@ -186,19 +186,23 @@ def observe(O, P, obj, prm, status, p, o):
     if type(p) is not type(prm) or (P.kind == 'F' and list(p.columns) != P.cols):
         bad(('broadcast parameter has the wrong type or columns', repr(type(p))))
         return ob
+    def themselves():
+        """the results are the operands as they were passed (same rows in the same order): nothing was aligned"""
+        try:
+            return (len(o) == len(O.keys) and len(p) == len(P.keys) and o.index.nlevels == len(lo) and p.index.nlevels == len(lp)
+                    and [O.row_of(_rowvals(o, i)) for i in range(len(o))] == list(range(len(o)))
+                    and [P.row_of(_rowvals(p, i)) for i in range(len(p))] == list(range(len(p))))
+        except Exception:
+            return False
     # ---- identical index
     if not (o.index.equals(p.index) and list(o.index.names) == list(p.index.names)):
         bad(('the two results do not have the same index', '%r %r / %r %r' % (list(o.index.names), list(o.index)[:6], list(p.index.names), list(p.index)[:6])))
-        try:
-            ob.unaligned = (len(o) == len(O.keys) and len(p) == len(P.keys)
-                            and [O.row_of(_rowvals(o, i)) for i in range(len(o))] == list(range(len(o)))
-                            and [P.row_of(_rowvals(p, i)) for i in range(len(p))] == list(range(len(p))))
-        except Exception:
-            pass
+        ob.unaligned = themselves()
         return ob
     lvl = level_positions(o.index.names, lo, lp)
     if lvl is None:
         bad(('result level names are not obj levels + new parameter levels', repr(list(o.index.names))))
+        ob.unaligned = themselves() and len(lo) + len(lp) > len(list(o.index.names)) and not zero_level_obj
         return ob
     order, pos_o, pos_p = lvl
     ob.levels = list(o.index.names)      # as returned (the keys below are canonicalised to obj levels ++ new prm levels)
